@@ -1,8 +1,9 @@
 // Command codec: driver for C20 (engine `codec`): amino binary/JSON round trips of every wire and
 // storage type, canonical sign bytes, decoders on arbitrary / truncated / mutated bytes (also through
 // CheckTx/DeliverTx of a live application), and the store key builders against the Coq key model.
-//   <out>/codec.ops   one case per line (model input for the K* cases)
-//   <out>/codec.impl  "<id> <result>"
+//
+//	<out>/codec.ops   one case per line (model input for the K* cases)
+//	<out>/codec.impl  "<id> <result>"
 package main
 
 import (
@@ -15,9 +16,9 @@ import (
 	"math/big"
 	"os"
 	"sort"
-	"unicode/utf8"
 	"strings"
 	"time"
+	"unicode/utf8"
 
 	amino "github.com/tendermint/go-amino"
 	abci "github.com/tendermint/tendermint/abci/types"
@@ -104,6 +105,8 @@ func randMemo(r *rng.R) string {
 		return strings.Repeat("m", 256)
 	case 2:
 		return "ünï\"cödé\\ \n{}"
+	case 3: // white space around the text: part of what is signed
+		return []string{" ", "\n", "\t ", ""}[r.Intn(4)] + asciiString(r, r.Intn(12)) + []string{" ", "\n", " \t", "\r\n"}[r.Intn(4)]
 	}
 	return asciiString(r, r.Intn(30))
 }
@@ -525,6 +528,73 @@ func main() {
 		stats[kind+"/"+rk]++
 		id++
 	}
+	// ---- 7b. the text form of Dec: String() and NewDecFromStr against the model
+	decText := func(cases int) {
+		for i := 0; i < cases; i++ {
+			d := randDec(r)
+			if r.Chance(1, 4) { // around the eighteen-digit boundary
+				d = sdk.Dec{Int: new(big.Int).Add(new(big.Int).Exp(big.NewInt(10), big.NewInt(int64(16+r.Intn(5))), nil), big.NewInt(int64(r.Intn(3)-1)))}
+				if r.Bool() {
+					d.Int.Neg(d.Int)
+				}
+			}
+			if r.Chance(1, 6) { // magnitudes below one, of either sign and every number of leading fraction zeros
+				k := r.Intn(18)
+				m := new(big.Int).Exp(big.NewInt(10), big.NewInt(int64(k)), nil)
+				m.Mul(m, big.NewInt(int64(1+r.Intn(9))))
+				m.Add(m, new(big.Int).Rem(r.Bits(60), new(big.Int).Exp(big.NewInt(10), big.NewInt(int64(k)), nil)))
+				if r.Bool() {
+					m.Neg(m)
+				}
+				d = sdk.Dec{Int: m}
+			}
+			emit("DS "+d.Int.String(), guard(func() string { return hx([]byte(d.String())) }))
+			str := d.String()
+			switch r.Intn(6) {
+			case 0: // fewer decimals
+				str = strings.TrimRight(str, "0")
+				if strings.HasSuffix(str, ".") {
+					str += "0"
+				}
+			case 1: // no fraction at all
+				str = strings.SplitN(str, ".", 2)[0]
+			case 2: // leading zeros
+				if strings.HasPrefix(str, "-") {
+					str = "-00" + str[1:]
+				} else {
+					str = "00" + str
+				}
+			case 3: // malformed (no sign characters: what big.Int.SetString does with an inner sign is not modelled)
+				alphabet := "0123456789..xe "
+				bs := []byte(str)
+				switch r.Intn(4) {
+				case 0:
+					if len(bs) > 0 {
+						bs = bs[:r.Intn(len(bs))]
+					}
+				case 1:
+					j := r.Intn(len(bs) + 1)
+					bs = append(bs[:j], append([]byte{alphabet[r.Intn(len(alphabet))]}, bs[j:]...)...)
+				case 2:
+					bs = append(bs, []byte("0000000000000000000")[:r.Intn(19)]...)
+				default:
+					bs = []byte(strings.Replace(string(bs), ".", "", 1))
+				}
+				str = string(bs)
+			}
+			emit("DP "+hx([]byte(str)), guard(func() string {
+				v, err := sdk.NewDecFromStr(str)
+				if err != nil {
+					return "error"
+				}
+				return v.Int.String()
+			}))
+		}
+	}
+	if *only == "DS" {
+		decText(*n)
+		return
+	}
 	// ---- 0. the missed-block key of (address, window index): every index of the int64 range has its own key
 	km := func() {
 		addr := sdk.Address(r.Bytes(20))
@@ -687,6 +757,85 @@ func main() {
 			bz, kind = mutateBytes(r, good), "mutated"
 		}
 		emit("FZ "+t.name+" "+kind, guard(func() string { return decodeFuzz(t, bz) }))
+	}
+	// ---- 3a. hostile JSON: a good document with one value replaced by a short token of another shape (or cut short), through
+	// the amino JSON decoder of every type and through the key types' own UnmarshalJSON: an error or a value, never a panic
+	tokens := []string{"7", "0", "-", "\"", "\"\"", "\"a\"", "true", "null", "[]", "{}", "1e5", "\"zz\"", "[1]", "{\"a\":1}", " ", "\"\\u00\""}
+	for i := 0; i < *n/4; i++ {
+		t := types[r.Intn(len(types))]
+		js, err := cdc.MarshalJSON(t.mk(r))
+		if err != nil || len(js) < 2 {
+			continue
+		}
+		doc := string(js)
+		// the JSON values of the document: quoted strings and bare tokens after a colon or inside an array
+		var spans [][2]int
+		for j := 0; j < len(doc); j++ {
+			if doc[j] == ':' || doc[j] == '[' || doc[j] == ',' {
+				k := j + 1
+				if k < len(doc) && doc[k] == '"' {
+					e := k + 1
+					for e < len(doc) && (doc[e] != '"' || doc[e-1] == '\\') {
+						e++
+					}
+					if e < len(doc) {
+						spans = append(spans, [2]int{k, e + 1})
+					}
+				} else if k < len(doc) && (doc[k] == '-' || (doc[k] >= '0' && doc[k] <= '9') || doc[k] == 't' || doc[k] == 'f' || doc[k] == 'n') {
+					e := k
+					for e < len(doc) && doc[e] != ',' && doc[e] != '}' && doc[e] != ']' {
+						e++
+					}
+					spans = append(spans, [2]int{k, e})
+				}
+			}
+		}
+		mal := doc
+		kind := "cut"
+		if len(spans) > 0 && r.Chance(4, 5) {
+			sp := spans[r.Intn(len(spans))]
+			mal = doc[:sp[0]] + tokens[r.Intn(len(tokens))] + doc[sp[1]:]
+			kind = "token"
+		} else {
+			mal = doc[:r.Intn(len(doc))]
+		}
+		emit("FJ "+t.name+" "+kind, guard(func() string {
+			if err := cdc.UnmarshalJSON([]byte(mal), t.ptr()); err != nil {
+				return "error"
+			}
+			return "value"
+		}))
+	}
+	for i := 0; i < 120; i++ {
+		tok := tokens[r.Intn(len(tokens))]
+		if r.Chance(1, 4) {
+			tok = hex.EncodeToString(r.Bytes(r.Intn(40)))
+			if r.Bool() {
+				tok = "\"" + tok + "\""
+			}
+		}
+		which := i % 4
+		emit(fmt.Sprintf("FJ key%d direct", which), guard(func() string {
+			var err error
+			switch which {
+			case 0:
+				var k crypto.Secp256k1PublicKey
+				err = k.UnmarshalJSON([]byte(tok))
+			case 1:
+				var k crypto.Ed25519PublicKey
+				err = k.UnmarshalJSON([]byte(tok))
+			case 2:
+				var k crypto.Secp256k1PublicKey
+				err = json.Unmarshal([]byte(tok), &k)
+			default:
+				var k crypto.Ed25519PublicKey
+				err = json.Unmarshal([]byte(tok), &k)
+			}
+			if err != nil {
+				return "error"
+			}
+			return "value"
+		}))
 	}
 	// ---- 3b. hostile bytes through CheckTx / DeliverTx of a live application
 	gen := &simapp.Genesis{
@@ -851,70 +1000,20 @@ func main() {
 			if err != nil {
 				return "error"
 			}
+			// ... and the verifier (the ante handler's GetSignBytes) computes the very same bytes from the decoded transaction
+			full, _ := cdc.MarshalBinaryLengthPrefixed(tx)
+			var back authTypes.StdTx
+			if err := cdc.UnmarshalBinaryLengthPrefixed(full, &back); err != nil {
+				return "error-decoding-the-transaction"
+			}
+			vb, err := auth.GetSignBytes(chain, back)
+			if err != nil || !bytes.Equal(vb, sb) {
+				return "VERIFIER-SIGNS-OTHER-BYTES"
+			}
 			return hx(sb)
 		}))
 	}
-	// ---- 7b. the text form of Dec: String() and NewDecFromStr against the model
-	for i := 0; i < *n/8; i++ {
-		d := randDec(r)
-		if r.Chance(1, 4) { // around the eighteen-digit boundary
-			d = sdk.Dec{Int: new(big.Int).Add(new(big.Int).Exp(big.NewInt(10), big.NewInt(int64(16+r.Intn(5))), nil), big.NewInt(int64(r.Intn(3)-1)))}
-			if r.Bool() {
-				d.Int.Neg(d.Int)
-			}
-		}
-		if r.Chance(1, 6) { // magnitudes below one, of either sign and every number of leading fraction zeros
-			k := r.Intn(18)
-			m := new(big.Int).Exp(big.NewInt(10), big.NewInt(int64(k)), nil)
-			m.Mul(m, big.NewInt(int64(1+r.Intn(9))))
-			m.Add(m, new(big.Int).Rem(r.Bits(60), new(big.Int).Exp(big.NewInt(10), big.NewInt(int64(k)), nil)))
-			if r.Bool() {
-				m.Neg(m)
-			}
-			d = sdk.Dec{Int: m}
-		}
-		emit("DS "+d.Int.String(), guard(func() string { return hx([]byte(d.String())) }))
-		str := d.String()
-		switch r.Intn(6) {
-		case 0: // fewer decimals
-			str = strings.TrimRight(str, "0")
-			if strings.HasSuffix(str, ".") {
-				str += "0"
-			}
-		case 1: // no fraction at all
-			str = strings.SplitN(str, ".", 2)[0]
-		case 2: // leading zeros
-			if strings.HasPrefix(str, "-") {
-				str = "-00" + str[1:]
-			} else {
-				str = "00" + str
-			}
-		case 3: // malformed (no sign characters: what big.Int.SetString does with an inner sign is not modelled)
-			alphabet := "0123456789..xe "
-			bs := []byte(str)
-			switch r.Intn(4) {
-			case 0:
-				if len(bs) > 0 {
-					bs = bs[:r.Intn(len(bs))]
-				}
-			case 1:
-				j := r.Intn(len(bs) + 1)
-				bs = append(bs[:j], append([]byte{alphabet[r.Intn(len(alphabet))]}, bs[j:]...)...)
-			case 2:
-				bs = append(bs, []byte("0000000000000000000")[:r.Intn(19)]...)
-			default:
-				bs = []byte(strings.Replace(string(bs), ".", "", 1))
-			}
-			str = string(bs)
-		}
-		emit("DP "+hx([]byte(str)), guard(func() string {
-			v, err := sdk.NewDecFromStr(str)
-			if err != nil {
-				return "error"
-			}
-			return v.Int.String()
-		}))
-	}
+	decText(*n / 8)
 	// ---- 8. strings JSON cannot carry (invalid UTF-8): different content must still give different sign bytes
 	for i := 0; i < 40; i++ {
 		tx := randTx(r)
